@@ -48,6 +48,10 @@ CLAIMED = {
          "Decides structural clauses of the JWT accept decision: a VerifiedJWT exists only after signature/MAC verification of the content, header validation of that same content and Validator.Validate of that same RawJWT, in that order; validateHeader's decision equals the rule (alg equal, no crit, kid rules) on all 64 input combinations; the presence matrix on all 8; the three timestamp rejections have exactly the stated comparison direction and skew sign with 'now' sampled per call; skew <= 10 min; base64url only; every key-ID kid is base64url of the 4-byte big-endian ID on all three sides; JWK export handles only public types and filters by Enabled. JSON/base64 decoding and claim round trips are not decided.",
          "Trusted: go/ssa; structpb accessors; time.Time.After/Add semantics.",
          "DESIGN.md §4 C09"),
+ "C07": ("authentication must-pass-through for segment decrypters; dominance of the decryption verdict over every copy to the caller; error-discipline census of underlying I/O calls; nonce-input value rules and counter-increment path rules; CFG path rule for the keyset-level retry reader",
+         "Decides the structural clauses of C07 (NOT chunking independence, which quantifies over call histories): segment decrypters succeed only under a passed tag check for every segment length; Reader.Read releases only authenticated plaintext; no underlying I/O error is dropped (16 call sites); segment nonces are prefix||be32(counter)||last with the 2^32-1 limit, own counters incremented on every emitting path, last=false/true/at-EOF; Write after Close fails and Close is idempotent; the keyset-level reader rewinds before each next candidate and fails when none matches.",
+         "Trusted: go/ssa; stdlib Open/hmac.Equal; io.ReadFull EOF conventions.",
+         "DESIGN.md §4 C07"),
 }
 
 NOT_APPLICABLE = {
